@@ -50,7 +50,11 @@ func main() {
 		var c Case
 		vevid.LoadReplay(f.Replay, &c)
 		for i := 0; i < 5; i++ {
-			runCase(w, rep, c)
+			if c.Special != "" {
+				runSpecials(w, rep)
+			} else {
+				runCase(w, rep, c)
+			}
 		}
 		rep.Write()
 		return
@@ -68,6 +72,9 @@ func main() {
 	rep.Bounds["field_types"] = fieldTypes
 	rep.Bounds["ranges"] = rangeNames()
 	rep.Bounds["intervals_ms"] = intervals
+	if f.Shard == 0 {
+		runSpecials(w, rep)
+	}
 	var idx, mine int64
 	forEachCase(b, func(c Case) bool {
 		idx++
@@ -88,6 +95,7 @@ func main() {
 	rep.Extra["sum_queries"] = w.queries
 	rep.Extra["sum_query_ms"] = w.queryNs / 1e6
 	rep.Extra["sum_step_ms"] = w.stepNs / 1e6
+	rep.Extra["sum_isolation_reopens"] = w.healReopens
 	rep.Write()
 }
 
@@ -120,6 +128,9 @@ func runCase(w *world, rep *vevid.Report, c Case) {
 		}
 	}()
 	w.housekeeping()
+	if os.Getenv("C11_LOGCASES") != "" {
+		fmt.Fprintf(os.Stderr, "CASE %s: %s\n", metric, c)
+	}
 	m, err := w.apply(c, metric)
 	if err != nil {
 		// a write / flush / compaction / reopen that fails for a legal history: the points were not "accepted"
@@ -141,6 +152,10 @@ func runCase(w *world, rep *vevid.Report, c Case) {
 	}
 }
 
+// traceClause prints the first violations of one clause to stderr (development aid).
+var traceClause = os.Getenv("C11_TRACE")
+var traced int
+
 // selFilter restricts the menu in probe mode (development aid).
 var selFilter = os.Getenv("C11_SEL")
 
@@ -156,7 +171,16 @@ func evalQuery(w *world, rep *vevid.Report, c Case, m *model, q Query, metric st
 	}
 	viol := func(clause, ft, detail string) {
 		rep.Count("viol "+clause+" "+ft+"/"+c.opKinds(), 1)
-		rep.Violate(vevid.Violation{Clause: clause, Scenario: ft + "/" + c.opKinds(), Site: q.class(),
+		scenario, site := ft+"/"+c.opKinds(), q.class()
+		if traceClause != "" && traceClause == clause && traced < 30 {
+			traced++
+			fmt.Fprintf(os.Stderr, "TRACE %s %s | %s | %s\n   %s\n", clause, ft, c, q.sql("M"), strings.ReplaceAll(detail, "\n", "\n   "))
+		}
+		if knownDeviation[clause] {
+			// a named deviation is one finding per (field type, function): keep the report small
+			scenario, site = ft, "leaf"
+		}
+		rep.Violate(vevid.Violation{Clause: clause, Scenario: scenario, Site: site,
 			Detail: fmt.Sprintf("%s\nhistory: %s\nquery: %s", detail, c, q.sql("M")), Replay: rc})
 	}
 	if qerr != nil {
@@ -164,7 +188,11 @@ func evalQuery(w *world, rep *vevid.Report, c Case, m *model, q Query, metric st
 			rep.Outcome("empty:error")
 			return
 		}
-		viol("query-error", ftfn, fmt.Sprintf("query failed: %v; reference expects %d points: %s", qerr, len(exp), renderExp(exp)))
+		cl := "query-error"
+		if c.losesNamesAtReopen() {
+			cl = "empty-meta-flush-stops-persistence"
+		}
+		viol(cl, ftfn, fmt.Sprintf("query failed: %v; reference expects %d points: %s", qerr, len(exp), renderExp(exp)))
 		rep.Outcome("error")
 		return
 	}
@@ -213,7 +241,7 @@ func evalQuery(w *world, rep *vevid.Report, c Case, m *model, q Query, metric st
 		rep.Outcome(k)
 	}
 	if len(bad) > 0 {
-		alt := m.alt.eval(q)
+		alts := []map[string]vset{m.alts[0].eval(q), m.alts[1].eval(q)}
 		var items []string
 		for it := range bad {
 			items = append(items, it)
@@ -228,11 +256,20 @@ func evalQuery(w *world, rep *vevid.Report, c Case, m *model, q Query, metric st
 					sel = s
 				}
 			}
-			clause := classify(q, sel, it, exp, alt, got)
+			clause := classify(q, sel, it, exp, alts[0], got)
+			if clause == "result-differs" && classify(q, sel, it, exp, alts[1], got) != "result-differs" {
+				clause = "write-buffer-end-shrinks"
+			}
+			if c.losesNamesAtReopen() {
+				clause = "empty-meta-flush-stops-persistence"
+			}
 			viol(clause, ft, strings.Join(bad[it], "; ")+"\nreference: "+renderExp(exp)+"\nlindb:     "+renderGot(got))
 		}
 	}
 }
+
+var knownDeviation = map[string]bool{"write-buffer-end-shrinks": true, "empty-meta-flush-stops-persistence": true, "multi-function-same-field": true, "place-partial-aggregate": true,
+	"first-last-bucket-order": true, "first-last-slot-merge-order": true, "memdb-miss-hides-files": true}
 
 // classify names the clause of a disagreement on one select item: a known deviation if the "as built" model
 // (altmodel.go) reproduces EVERY point of the item that lindb returned (and every missing one), else result-differs.
@@ -324,6 +361,11 @@ func renderGot(got map[string]float64) string {
 func probe(w *world, rep *vevid.Report, args []string) {
 	c := Case{Menu: "quick"}
 	for _, a := range args {
+		if a == "/" { // several histories in one process: run the earlier ones with the same menu
+			runCase(w, rep, c)
+			c = Case{Menu: "quick"}
+			continue
+		}
 		if strings.Contains(a, "@") {
 			p := strings.Split(a, "@")
 			c.Steps = append(c.Steps, Step{Op: "w", Series: p[0], Slot: p[1]})
